@@ -274,11 +274,16 @@ def _recv_is_segment(ctx, fn, q, recv, sid, facts):
     # (2b) built from the formatted text of a segment that was itself built from a literal with that id
     for s in ast.walk(fn):
         if isinstance(s, ast.Assign) and path_of(s.targets[0]) == recv and isinstance(s.value, ast.Call) and A.call_target(s.value)[1] == 'Segment' \
-                and s.value.args and isinstance(s.value.args[0], ast.Name):
-            tv = s.value.args[0].id
-            for s2 in ast.walk(fn):
-                if isinstance(s2, ast.Assign) and path_of(s2.targets[0]) == tv and isinstance(s2.value, ast.Call) and A.call_target(s2.value)[1] == 'format':
-                    base = path_of(s2.value.func.value)
+                and s.value.args:
+            a0 = s.value.args[0]
+            texts = []
+            if isinstance(a0, ast.Name):
+                texts = [s2.value for s2 in ast.walk(fn) if isinstance(s2, ast.Assign) and path_of(s2.targets[0]) == a0.id]
+            else:
+                texts = [a0]
+            for tv in texts:
+                if isinstance(tv, ast.Call) and A.call_target(tv)[1] == 'format' and isinstance(tv.func, ast.Attribute):
+                    base = path_of(tv.func.value)
                     ok2, why2 = _recv_is_segment(ctx, fn, q, base, sid, facts) if base and base != recv else (False, '')
                     if ok2:
                         return True, 'built from the text of %s (%s)' % (base, why2)
